@@ -22,6 +22,13 @@ CHECKS = {
             "trusts kernel/glibc/ASan runtime; single-threaded", "DESIGN.md C11"),
 }
 
+CHECKS["C20"] = ("exploration",
+    "differential testing of the handle database against a refcount model with a destructor ledger (ASan)",
+    "Each op's result on live, released, pending-removal, forged and no-check handles is compared with a "
+    "refcount model; the destructor ledger checks exactly-once and the moment (the call that drops the count to "
+    "zero); iteration must visit exactly the not-destroyed objects.",
+    "trusts ASan runtime; libqb's random() replaced by seeded PRNG; single-threaded", "DESIGN.md C20")
+
 REASON_PENDING = "check not registered yet in this revision (implementation in progress, see DESIGN.md section 7)"
 
 
